@@ -344,7 +344,8 @@ func runC18(ctx *harness.Ctx) {
 			}
 			inputs = append(inputs, src)
 		}
-		inputs = append(inputs, errorSiteVariants()...) // every special error site, at several positions, first met concurrently
+		vs := errorSiteVariants()
+		inputs = append(inputs, vs[:len(vs)-len(sizeProbeInputs)]...) // every special error site and the type-position matrix, first met concurrently (the size probes are too slow under the race detector)
 		// feature-rich fixed inputs, each twice and through query / statement / list entry points, so that every lazily initialised
 		// piece of state has at least two goroutines reaching it first (what the drawn sentences happen to contain varies by seed)
 		rich := []string{
